@@ -10,6 +10,7 @@ package main
 import (
 	"fmt"
 	"strings"
+	"sync"
 	"sync/atomic"
 	"time"
 
@@ -53,7 +54,20 @@ type task struct {
 	hist   []string
 	letter int // index into the alphabet; -1 = drain
 	merge  bool
-	res    *execResult
+	done   bool
+	kh     string // digest of the successor key ("" = run cut by a finding)
+	oh     string // digest of (observation, successor key)
+	finds  []finding
+	class  string
+	sample string
+}
+
+// provisional new state of the level being executed: the task with the lowest
+// index wins, so the representative history does not depend on scheduling
+type prov struct {
+	idx  int
+	key  string
+	snap interface{}
 }
 
 type bfsStats struct {
@@ -149,7 +163,7 @@ func explore(sys sysDef, rep *reporter) bfsStats {
 	}
 	states := map[string]*stateRec{}
 	r0 := &stateRec{hist: nil, depth: 0, key: root.Key, snap: root.Snap}
-	states[root.Key] = r0
+	states[core.Hash(root.Key)] = r0
 	st.States = 1
 	st.PerDepth = []int{1}
 	frontier := []*stateRec{r0}
@@ -174,21 +188,50 @@ func explore(sys sysDef, rep *reporter) bfsStats {
 		}
 		pendingMerge = nil
 		var skipped int64
+		var pmu sync.Mutex
+		provs := map[string]*prov{}
 		core.Par(len(tasks), func(i int) {
 			t := &tasks[i]
 			if !sys.Deadline.IsZero() && time.Now().After(sys.Deadline) {
 				atomic.AddInt64(&skipped, 1)
 				return
 			}
+			var r *execResult
+			switch {
+			case t.letter < 0:
+				r = exec(t.st, nil, "drain", true) // literal: also re-validates the state's key
+				if len(r.Findings) == 0 && r.Key != t.st.key {
+					core.Fatal("%s/%s: the literal replay of %v reaches key\n  %s\nbut the state was recorded with key\n  %s", sys.Pool, sys.Cfg, t.hist, r.Key, t.st.key)
+				}
+			case t.merge:
+				r = exec(&stateRec{hist: t.hist}, []string{sys.Alphabet[t.letter]}, "step", true)
+			default:
+				r = exec(t.st, []string{sys.Alphabet[t.letter]}, "step", false)
+			}
+			t.done, t.finds = true, r.Findings
 			if t.letter < 0 {
-				t.res = exec(t.st, nil, "drain", true) // literal: also re-validates the state's key
 				return
 			}
+			t.oh = core.Hash(r.Obs, r.Key)
+			t.class = sys.Pool + " " + letterKind(sys.Alphabet[t.letter]) + "→" + outcomeOf(r.Obs)
+			if i%4099 == 1 {
+				t.sample = r.Obs
+			}
+			rep.obsSet.Add(core.Hash(r.Obs))
+			if r.Key == "" {
+				return
+			}
+			t.kh = core.Hash(r.Key)
 			if t.merge {
-				t.res = exec(&stateRec{hist: t.hist}, []string{sys.Alphabet[t.letter]}, "step", true)
 				return
 			}
-			t.res = exec(t.st, []string{sys.Alphabet[t.letter]}, "step", false)
+			pmu.Lock()
+			if _, known := states[t.kh]; !known {
+				if p, ok := provs[t.kh]; !ok || i < p.idx {
+					provs[t.kh] = &prov{idx: i, key: r.Key, snap: r.Snap}
+				}
+			}
+			pmu.Unlock()
 		})
 		var next []*stateRec
 		if skipped > 0 {
@@ -197,7 +240,7 @@ func explore(sys sysDef, rep *reporter) bfsStats {
 			st.Capped = true
 			for i := range tasks {
 				t := &tasks[i]
-				if t.res == nil {
+				if !t.done {
 					continue
 				}
 				h, mode := t.hist, "drain"
@@ -205,7 +248,7 @@ func explore(sys sysDef, rep *reporter) bfsStats {
 					h, mode = append(append([]string{}, t.hist...), sys.Alphabet[t.letter]), "step"
 					st.PartialTransitions++
 				}
-				for _, f := range t.res.Findings {
+				for _, f := range t.finds {
 					rep.report(sys.Pool, sys.Cfg, mode, h, f)
 				}
 			}
@@ -215,48 +258,44 @@ func explore(sys sysDef, rep *reporter) bfsStats {
 		for i := range tasks {
 			t := &tasks[i]
 			if t.letter >= 0 && !t.merge {
-				t.st.obs[t.letter] = core.Hash(t.res.Obs, t.res.Key)
+				t.st.obs[t.letter] = t.oh
 			}
 		}
 		for i := range tasks {
 			t := &tasks[i]
 			if t.letter < 0 {
 				st.Drains++
-				for _, f := range t.res.Findings {
+				for _, f := range t.finds {
 					rep.report(sys.Pool, sys.Cfg, "drain", t.hist, f)
-				}
-				if len(t.res.Findings) == 0 && t.res.Key != t.st.key {
-					core.Fatal("%s/%s: the literal replay of %v reaches key\n  %s\nbut the state was recorded with key\n  %s", sys.Pool, sys.Cfg, t.hist, t.res.Key, t.st.key)
 				}
 				continue
 			}
 			h := append(append([]string{}, t.hist...), sys.Alphabet[t.letter])
-			for _, f := range t.res.Findings {
+			for _, f := range t.finds {
 				rep.report(sys.Pool, sys.Cfg, "step", h, f)
 			}
 			if t.merge {
 				st.MergeChecks++
-				if len(t.res.Findings) == 0 && t.st.obs != nil && t.st.obs[t.letter] != core.Hash(t.res.Obs, t.res.Key) {
+				if len(t.finds) == 0 && t.st.obs != nil && t.st.obs[t.letter] != t.oh {
 					st.MergeMismatch++
-					rep.run.Notes = append(rep.run.Notes, fmt.Sprintf("MERGE MISMATCH %s/%s: histories %v and %v have the same canonical key but letter %s gives different observations (%s)", sys.Pool, sys.Cfg, t.st.hist, t.hist, sys.Alphabet[t.letter], t.res.Obs))
+					rep.run.Notes = append(rep.run.Notes, fmt.Sprintf("MERGE MISMATCH %s/%s: histories %v and %v have the same canonical key but letter %s gives different observations", sys.Pool, sys.Cfg, t.st.hist, t.hist, sys.Alphabet[t.letter]))
 				}
 				continue
 			}
 			st.Transitions++
-			rep.classes.Add(sys.Pool + " " + letterKind(sys.Alphabet[t.letter]) + "→" + outcomeOf(t.res.Obs))
-			rep.obsSet.Add(core.Hash(t.res.Obs))
-			if (st.Transitions % 4099) == 1 {
-				rep.samples.Add(poolCase{Pool: sys.Pool, Cfg: sys.Cfg, Mode: "step", Hist: h, Note: t.res.Obs})
+			rep.classes.Add(t.class)
+			if t.sample != "" {
+				rep.samples.Add(poolCase{Pool: sys.Pool, Cfg: sys.Cfg, Mode: "step", Hist: h, Note: t.sample})
 			}
-			if t.res.Key == "" {
+			if t.kh == "" {
 				continue
 			}
-			if s, ok := states[t.res.Key]; ok {
+			if s, ok := states[t.kh]; ok {
 				st.Merges++
 				// merge oracle: schedule the alternative history for expansion
 				// (observations only).  Always for the first alternative that
-				// ends in an observer letter (hidden sort cache), plus one other.
-				if d+1 < sys.Depth && len(s.hist) <= d+1 {
+				// ends in an observer letter (hidden sort cache), plus MergeAlts others.
+				if d+1 < sys.Depth {
 					isO := sys.Alphabet[t.letter] == "O"
 					if (isO && !s.altsO && sys.MergeObs) || (!isO && s.alts < sys.MergeAlts) {
 						if isO {
@@ -271,12 +310,16 @@ func explore(sys sysDef, rep *reporter) bfsStats {
 				}
 				continue
 			}
-			ns := &stateRec{hist: h, depth: d + 1, key: t.res.Key, snap: t.res.Snap}
-			states[t.res.Key] = ns
+			p := provs[t.kh]
+			ns := &stateRec{hist: h, depth: d + 1, key: p.key, snap: p.snap}
+			states[t.kh] = ns
 			next = append(next, ns)
 			st.States++
 		}
 		st.DepthDone = d
+		if d < sys.Depth {
+			st.DepthDone = d + 1
+		}
 		if d < sys.Depth {
 			st.PerDepth = append(st.PerDepth, len(next))
 		}
